@@ -21,7 +21,7 @@ func init() {
 	register(&core.Rule{ID: "R-SCOPE-GATE", Props: []string{"C05"}, Doc: "preprocess gate loop: every path through an iteration that does not reject the item (RemoveChild+continue / SetStatus(Failed|Completed)+return) has taken the nil-error side of NormalizeURL(item), the pass side of the include test (when configured) and the false side of the exclude-host, exclude-string and regex predicates, all on that item; the other sides reach only rejections", Run: ruleScopeGate})
 	register(&core.Rule{ID: "R-REQUEST-ONLY-AFTER-GATE", Props: []string{"C05", "C08"}, Doc: "(*URL).SetRequest has one call site, in preprocess, reachable only past the gate loop; the request URL is the item's canonical string; the request loop only sees items whose status is still Fresh", Run: ruleRequestAfterGate})
 	register(&core.Rule{ID: "R-DELETE-ADVANCE", Props: []string{"C05", "C08", "C10"}, Doc: "a loop that deletes element i of the slice it iterates (append(s[:i], s[i+1:]...) or slices.Delete(s,i,i+1)) must not advance the index past the element that moved into slot i", Run: ruleDeleteAdvance})
-	register(&core.Rule{ID: "R-URL-SHAPE", Props: []string{"C05", "C09"}, Doc: "NormalizeURL: every return that can carry a nil error has passed the scheme test against {http:, https:}, the host tests against localhost and 127.0.0.1, the dotted-host test and SetHash(\"\") — directly or through a module helper whose nil result implies them", Run: ruleURLShape})
+	register(&core.Rule{ID: "R-URL-SHAPE", Props: []string{"C05", "C09", "C07"}, Doc: "NormalizeURL: every return that can carry a nil error has passed the scheme test against {http:, https:}, the host tests against localhost and 127.0.0.1, the dotted-host test and SetHash(\"\") — directly or through a module helper whose nil result implies them", Run: ruleURLShape})
 	register(&core.Rule{ID: "R-HTTP-EGRESS", Props: []string{"C05"}, Doc: "calls that send HTTP requests from module code are confined to the archiver fetch closure (client.Do on the request prepared by preprocess) and the reviewed start-up/queue exemptions; anything else reachable from the pipeline is reported", Run: ruleHTTPEgress})
 	register(&core.Rule{ID: "R-NO-AUTO-REDIRECT", Props: []string{"C05", "C06"}, Doc: "no code stores HTTPClientSettings.FollowRedirects: the warc client returns 3xx responses instead of following them, so redirect targets are only fetched as gated child items", Run: ruleNoAutoRedirect})
 	register(&core.Rule{ID: "R-DEFAULT-EXCLUDES", Props: []string{"C05"}, Doc: "GenerateCrawlConfig stores into ExcludeHosts, on every path to return nil, a value built from an append containing archive.org and archive-it.org; nothing else writes ExcludeHosts afterwards", Run: ruleDefaultExcludes})
